@@ -6,9 +6,9 @@ import (
 	"os"
 )
 
-var families = map[string]func(t *Tracer, r Rng, n int){
-	"zoom": driveZoom,
-}
+var families = map[string]func(t *Tracer, r Rng, n int){}
+
+func init() { families["zoom"] = driveZoom }
 
 func main() {
 	if len(os.Args) < 2 {
